@@ -228,3 +228,15 @@ PROPS["C18"] = {
     ],
     "floor_q": 100, "floor_t": 5000,
 }
+
+PROPS["C19"] = {
+    "level": "exploration",
+    "technique": "rapid-generated (subject metadata, key, operator, values) tuples and key-reference templates evaluated against real cache containers; oracles = negation-pair metamorphic relation, a reference key resolver + the documented operator table (differential), 'validated implies no panic'; balloon-type selection compared with a reference selector over generated type lists",
+    "rule": "expressions unit: subjects are resmgr Expression.Validate/Evaluate/KeyValue and container Expand through a real cache pod+container, and pod affinity annotations; non-trivial = the expression is accepted by validation and its key resolves for the subject (so operators see a value). balloon-types unit: request histories on a real balloons resource manager whose generated type lists carry 0-2 match expressions (11 keys incl. joint keys, all operators, globs) and 0-2 namespace globs per type, explicit reserved/default types at generated list positions, reservedPoolNamespaces, balloon annotations in all three forms incl. unknown names; after every request every container sitting in a balloon is compared with a reference selector; non-trivial = containers were placed through >= 3 different (rule, type-kind) combinations, one of them a user-defined type chosen by expression or namespace. distinct = hash of the case",
+    "assumptions": ["the undocumented '*' wildcard value of Equals/In is not judged by the operator table (the other clauses still apply to it)"],
+    "units": [
+        {"name": "expressions", "pkg": "./pkg/resmgr/cache", "run": "^TestVerifC19Expressions$", "replay_run": "^TestVerifC19ExpressionsReplay$", "q": 20000, "t": 3200000},
+        {"name": "balloon-types", "pkg": "./pkg/resmgr", "run": "^TestVerifC19Types$", "replay_run": "^TestVerifC19TypesReplay$", "q": 300, "t": 48000, "per_proc": 500},
+    ],
+    "floor_q": 1000, "floor_t": 50000,
+}
